@@ -127,12 +127,16 @@ def build_checking(d, path="root"):
                 A = A + p
         elif op == "Sub":
             A = parts[0] - parts[1]
+        # (the documented signatures called positionally for half of the descriptions)
         elif op == "Hstack":
-            A = L.Hstack(parts, axis=d["axis"])
+            A = L.Hstack(parts, d["axis"]) if lops._positional(d) else \
+                L.Hstack(parts, axis=d["axis"])
         elif op == "Vstack":
-            A = L.Vstack(parts, axis=d["axis"])
+            A = L.Vstack(parts, d["axis"]) if lops._positional(d) else \
+                L.Vstack(parts, axis=d["axis"])
         elif op == "Diag":
-            A = L.Diag(parts, oaxis=d["oaxis"], iaxis=d["iaxis"])
+            A = L.Diag(parts, d["oaxis"], d["iaxis"]) if lops._positional(d) else \
+                L.Diag(parts, oaxis=d["oaxis"], iaxis=d["iaxis"])
     elif "A" in d:
         a, err = build_checking(d["A"], path + "." + op)
         if err:
